@@ -18,6 +18,7 @@ import DustVerif.Driver.Wrt
 import DustVerif.Driver.CFilter
 import DustVerif.Driver.Receiver
 import DustVerif.Driver.AckWait
+import DustVerif.Driver.Xcdr
 open DustVerif.Driver
 
 partial def loopStateless (h : IO.FS.Stream) (out : IO.FS.Stream) (f : String → String) : IO Unit := do
@@ -58,4 +59,7 @@ def main (args : List String) : IO UInt32 := do
   | ["fuzzdg"] => loopStateful stdin stdout ReceiverEngine.step ReceiverEngine.init; return 0
   | ["ackw"] => loopStateful stdin stdout AckWaitEngine.step AckWaitEngine.init; return 0
   | ["hist"] => loopStateful stdin stdout HistEngine.step HistEngine.defaultSt; return 0
+  | [a] => match XcdrEngine.engineCfg a with
+    | some cfg => loopStateless stdin stdout (XcdrEngine.step cfg); return 0
+    | none => IO.eprintln "usage: dustmodel <engine>"; return 2
   | _ => IO.eprintln "usage: dustmodel <engine>"; return 2
